@@ -102,4 +102,19 @@ CHECKS = {
         note=_NOTE + " Decides control flow only - nothing about time, caches or secret-dependent branches inside callees "
              "not declared constant-time (bn_mod, inversion in ep_norm, bn_rec_frb); compiler output of this build only.",
         technique="TLC model checking of label schedules (self-composition) + relational TLC trace validation of trace-pc / ld --wrap control-flow observations"),
+    "C07": dict(
+        text="TLA+ module Codec defines every external representation (bn binary/digit-vector/text radix 2..64; fp binary/text; "
+             "fp2 plain + packed unitary, fp12 plain; ep and ep2 compressed/uncompressed; Edwards points) as Enc/Dec operators on "
+             "byte strings, with the sign convention a parameter. TLC checks them exhaustively in tiny worlds (all 16.8 M byte "
+             "strings of length <= 3 over F_251 in thorough, G2/fp2 formats over F_49/F_121/F_169, all integers below 2^10 x "
+             "every radix): round trip, advertised size, canonicity, and Dec accepting exactly the image of Enc computed by brute "
+             "force. drv_codec.c executes generated cases against the real library (w8p8 tiny world, std256 on all six "
+             "selectable prime curves; thorough also b12-381 and ed255) and logs each call; trace/CodecTrace accepts an event iff "
+             "Codec explains both verdict and value: valid values incl. zero/identity/maximal, every length 0..L+2, every tag "
+             "byte, single-byte corruptions, coordinates >= p, abscissae without a point, wrong/negated ordinates, order-two "
+             "points, garbage, buffer lengths size-1/size/size+1 with guard bytes, all radices.",
+        ref="§4 C07",
+        note=_NOTE + " Not decided: gt/fp12 compressed form, eb, ep3/4/8 and higher extension fields, *_print. The compression "
+             "bit is the parity of the STORED representation (y*R mod p in Montgomery builds): self-consistent, not SEC 1 interoperable (observation).",
+        technique="TLC model checking of Enc/Dec definitions in tiny worlds + TLC trace validation of recorded codec calls"),
 }
